@@ -8,7 +8,7 @@ LEDGER_FILES = ['a5/projections/polyhedral.py', 'a5/projections/dodecahedron.py'
 MUST_ENTER = [('a5/core/cell.py', 'cell_to_boundary'), ('a5/projections/polyhedral.py', 'inverse'), ('a5/projections/authalic.py', 'inverse'),
               ('a5/core/cell_info.py', 'cell_area'), ('a5/projections/dodecahedron.py', '_get_reflected_face_triangle')]
 RULE = ('cells: all cells of levels 0..3 (quick) / 0..5 (thorough); sampled cells at r in 4..29 stratified over generators (cells touching '
-        'face centres / vertices / edge midpoints / seams via the frame generator, polar, antimeridian, uniform, structured deep ids). Per '
+        'face centres / vertices / edge midpoints / seams via the frame generator, polar, antimeridian, uniform, equator, structured deep ids) and deep cells placed on the INTERNAL BRANCH BOUNDARIES of the projection code, which are located at run time by bisection on sys.monitoring line signatures (rv/branch.py). Per '
         'cell: area of the ring in the Lambert azimuthal equal-area plane at its centroid (vertices mapped to the authalic sphere by the '
         'closed form, not the library series) at s, 2s, 4s, ... segments with the envelope rule E = max(d_k, d_(k-1)/4, d_(k-2)/16): held if '
         '|a/a0 - 1| + 4E <= tol, violated only if |a/a0 - 1| > tol + 4E, else refine up to s=2048 (inconclusive beyond); a0 = 4 pi / N(r), '
@@ -97,11 +97,21 @@ def run_shard(spec, ctx):
                 eval_cell(a5, geo, c, r, 'enum', ctx)
         ctx.sample({'cell': c, 'r': r})
         return
+    from rv import branch
+    bpts = branch.hostile_points(a5, rnd)
+    ctx.counters['branch_boundary_points'] = len(bpts)
+    for ll_, where_ in bpts:
+        ctx.setadd('branch_boundaries_located', where_)
     for n in range(spec['n']):
-        kind = ('frame', 'polar', 'uniform', 'pattern', 'edge', 'antimeridian', 'seam', 'equator')[n % 8]
+        kind = ('frame', 'polar', 'uniform', 'pattern', 'edge', 'antimeridian', 'seam', 'equator', 'branch')[n % 9]
         r = rnd.randint(4, 29)
         try:
-            if kind == 'pattern':
+            if kind == 'branch':
+                if not bpts:
+                    continue
+                r = rnd.choice((29, 29, 28, 27, 26, 25, 24, rnd.randint(8, 23)))
+                c = a5.lonlat_to_cell(branch.near(rnd, bpts[rnd.randrange(len(bpts))][0], geo.width(r)), r)
+            elif kind == 'pattern':
                 c = gen.cell_by_path(a5, rnd.randrange(12), rnd.randrange(5), gen.digits_pattern(rnd, r - 1))
             else:
                 p, _ = gen.point(rnd, a5, kind, r)
